@@ -118,6 +118,17 @@ def _mk_ns(d, v, n):
 def _mk_tree(d, v, ns, taxa, rng, nested=None):
     nested = copy.deepcopy(nested if nested is not None else v["nested"])
     t = build.build_tree(d, nested, ns, taxa, rooted=v.get("rooted"))
+    if v.get("itaxa"):
+        # taxa on internal nodes and on the seed node (as read with suppress_internal_node_taxa=False): members of
+        # the same namespace, shared or copied by exactly the same rule as leaf taxa (seeded change C12-v1)
+        k = 0
+        stack = [t._seed_node]
+        while stack and k < 2:
+            nd = stack.pop()
+            if nd._child_nodes and nd.taxon is None:
+                nd.taxon = ns.new_taxon("int%d_%d" % (k, len(ns)))
+                k += 1
+            stack.extend(reversed(nd._child_nodes))
     t.label = v.get("label", "T")
     if v.get("weight") is not None:
         t.weight = v["weight"]
@@ -568,7 +579,7 @@ def variants(cls, shape, quick):
     if cls == "Tree":
         if annotated:
             vs = [{"name": "t2-annotated", "nested": T2, "nleaves": 2, "rooted": True, "ann": True, "comments": True},
-                  {"name": "t5-rich", "nested": T5, "nleaves": 5, "rooted": True, "ann": True, "rich": True, "comments": True,
+                  {"name": "t5-rich", "nested": T5, "nleaves": 5, "rooted": True, "ann": True, "rich": True, "comments": True, "itaxa": True,
                    "extra": True, "encode": True, "bound_other": True, "weight": 2, "ns_ann": True, "ns_extra": 1, "ns_holes": [1]}]
         else:
             vs = [{"name": "t1-bare", "nested": T1, "nleaves": 1, "rooted": None},
@@ -644,10 +655,10 @@ def random_case(rng, k, seed):
                             lengths=(None, 0, 1, 2, 3, 0.5), label_internal=rng.random() < 0.7)
     if cls == "Tree":
         nl = rng.randint(6, 12)
-        var = dict(feats, name="rand-tree", nested=rtree(nl), nleaves=nl, weight=rng.choice([None, 1, 2]))
+        var = dict(feats, name="rand-tree", nested=rtree(nl), nleaves=nl, weight=rng.choice([None, 1, 2]), itaxa=nl % 2 == 0)
     elif cls == "TreeList":
         nl = rng.randint(4, 7)
-        var = dict(feats, name="rand-list", trees=[rtree(nl) for _ in range(rng.randint(1, 4))], nleaves=nl,
+        var = dict(feats, name="rand-list", trees=[rtree(nl) for _ in range(rng.randint(1, 4))], nleaves=nl, itaxa=nl % 2 == 1,
                    xref=rng.choice([None, None, "extract-first", "extract-last", "annotations"]))
     elif cls == "Matrix":
         nt = rng.randint(3, 6)
